@@ -149,6 +149,10 @@ class DefaultXMLParser:
             if self._parsing_pos10 < 0:
                 self._parsing_pos10 = 0
 
+    def _dispatch11(self, message):
+        """A complete (de-chunked) base:1.1 message goes to the listeners."""
+        self._session._dispatch_message(message)
+
     def _parse11(self):
 
         """Messages are split into chunks. Chunks and messages are delimited
@@ -195,7 +199,7 @@ class DefaultXMLParser:
                 message = textify(b''.join(self._session._message_list))
                 self._session._message_list = []
                 self.logger.debug('_parse11: found end of message delimiter')
-                self._session._dispatch_message(message)
+                self._dispatch11(message)
                 break
 
             elif re_result.group(1):
